@@ -1,10 +1,132 @@
 /-
-  Driver ops for C07.
+  Driver ops for C07 (and helpers shared with C08):
+    render        policy → text of `renderMin` / `renderFull` under `layout seed` (hex)
+    parse-tokens  token list produced by the Go `Tokenize` hook → canonical policy (`showPolicyC07`) or `err`
+    escape / unquote / pattern / escape-class   white-box ops for Model/Text/Escape.lean
 -/
 import CedarGo.Driver.Ops.Core
+import CedarGo.Model.Text.Printer
+import CedarGo.Model.Text.Parser
 namespace CedarGo.Driver
-open Lean CedarGo
+open Lean CedarGo CedarGo.Text
 
-def c07Ops : List (String × Handler) := []
+def binOpNameC07 : BinOp → String
+  | .and => "and" | .or => "or" | .eq => "eq" | .ne => "ne" | .lt => "lt" | .le => "le" | .gt => "gt" | .ge => "ge"
+  | .add => "add" | .sub => "sub" | .mul => "mul" | .in_ => "in" | .contains => "contains"
+  | .containsAll => "containsAll" | .containsAny => "containsAny" | .getTag => "getTag" | .hasTag => "hasTag"
+
+def unOpNameC07 : UnOp → String
+  | .not => "not" | .neg => "neg" | .isEmpty => "isEmpty"
+
+def showPatternC07 (p : Pattern) : String :=
+  "[" ++ ",".intercalate (p.map fun c => (if c.wildcard then "*" else "") ++ hexBytes c.literal) ++ "]"
+
+/-- canonical rendering of an expression tree (the Go harness prints the same for `ast.IsNode`) -/
+partial def showExprC07 : Expr → String
+  | .lit v => showValue v
+  | .var v => "$" ++ varName v
+  | .unop op e => s!"({unOpNameC07 op} {showExprC07 e})"
+  | .binop op l r => s!"({binOpNameC07 op} {showExprC07 l} {showExprC07 r})"
+  | .ite c t e => s!"(ite {showExprC07 c} {showExprC07 t} {showExprC07 e})"
+  | .access e a => s!"(access {showExprC07 e} {hex a})"
+  | .has e a => s!"(has {showExprC07 e} {hex a})"
+  | .like e p => s!"(like {showExprC07 e} {showPatternC07 p})"
+  | .is e ty => s!"(is {showExprC07 e} {hex ty})"
+  | .isIn e ty r => s!"(isIn {showExprC07 e} {hex ty} {showExprC07 r})"
+  | .set es => "(set" ++ String.join (es.map fun e => " " ++ showExprC07 e) ++ ")"
+  | .record kes => "(rec" ++ String.join (kes.map fun ke => " " ++ hex ke.1 ++ "=" ++ showExprC07 ke.2) ++ ")"
+  | .call fn args => s!"(call {hex fn}" ++ String.join (args.map fun e => " " ++ showExprC07 e) ++ ")"
+
+def showUIDC07 (u : UID) : String := hex u.1 ++ ":" ++ hex u.2
+
+def showScopeC07 : Scope → String
+  | .all => "all"
+  | .eq e => s!"eq({showUIDC07 e})"
+  | .in_ e => s!"in({showUIDC07 e})"
+  | .inSet es => "inSet(" ++ ",".intercalate (es.map showUIDC07) ++ ")"
+  | .is ty => s!"is({hex ty})"
+  | .isIn ty e => s!"isIn({hex ty},{showUIDC07 e})"
+
+/-- canonical rendering of a policy, with (`pos = true`) or without its position -/
+def showPolicyC07 (pos : Bool) (p : Policy) : String :=
+  (match p.effect with | .permit => "permit" | .forbid => "forbid") ++
+  " @[" ++ ",".intercalate (p.annotations.map fun kv => hex kv.1 ++ "=" ++ hex kv.2) ++ "]" ++
+  " P:" ++ showScopeC07 p.principal ++ " A:" ++ showScopeC07 p.action ++ " R:" ++ showScopeC07 p.resource ++
+  " C[" ++ ";".intercalate (p.conditions.map fun c => (if c.1 then "when " else "unless ") ++ showExprC07 c.2) ++ "]" ++
+  (if pos then s!" @{p.position.offset}:{p.position.line}:{p.position.column}" else "")
+
+def tokTypeOfNat : Nat → TokType
+  | 0 => .eof | 1 => .ident | 2 => .int | 3 => .keyword | 4 => .string | 5 => .operator | _ => .unknown
+
+def tokTypeToNat : TokType → Nat
+  | .eof => 0 | .ident => 1 | .int => 2 | .keyword => 3 | .string => 4 | .operator => 5 | .unknown => 6
+
+/-- `[type, offset, line, column, hex text]`; the final EOF token of the Go slice is dropped -/
+def decTokensC07 (j : Json) : D (List Token) := do
+  let toks ← (← jArr j).mapM fun t => do
+    match ← jArr t with
+    | [ty, off, line, col, text] => .ok (⟨tokTypeOfNat (← jNat ty), ⟨← jNat off, ← jNat line, ← jNat col⟩, ← jHex text⟩ : Token)
+    | _ => .error "bad token"
+  match toks.getLast? with
+  | some t => if t.ty == .eof then .ok toks.dropLast else .ok toks
+  | none => .ok toks
+
+def opRenderC07 : Handler := fun _ j => do
+  let p ← decPolicy (← field j "policy")
+  let mode ← jStr (← field j "mode")
+  let seed ← jNat (← field j "seed")
+  .ok ("ok " ++ hex (layout seed (renderPolicy (mode == "full") p)))
+
+def opParseTokensC07 : Handler := fun _ j => do
+  let ts ← decTokensC07 (← field j "tokens")
+  let isList := match j.getObjVal? "list" with | .ok (.bool b) => b | _ => false
+  if isList then
+    match parsePolicies ts with
+    | none => .ok "fuel"
+    | some (.error _) => .ok "err"
+    | some (.ok ps) => .ok ("ok " ++ " ## ".intercalate (ps.map (showPolicyC07 true)))
+  else
+    match parsePolicy ts with
+    | none => .ok "fuel"
+    | some (.error _) => .ok "err"
+    | some (.ok p) => .ok ("ok " ++ showPolicyC07 true p)
+
+def hexChars (cs : List Char) : String := hex (String.ofList cs)
+
+def opEscapeC07 : Handler := fun _ j => do
+  let s ← jHex (← field j "s")
+  let mode ← jStr (← field j "mode")
+  if mode == "charall" then .ok (hexChars (escapeCharAll s.toList))
+  else .ok (hexChars (escapeString s.toList))
+
+def opUnquoteC07 : Handler := fun _ j => do
+  let s ← jHex (← field j "s")
+  let star ← jBool (← field j "star")
+  match unquote star s.toList with
+  | .ok (r, rest) => .ok s!"ok {hexChars r} {hexChars rest}"
+  | .error _ => .ok "err"
+
+def opPatternC07 : Handler := fun _ j => do
+  let s ← jHex (← field j "raw")
+  match parsePattern s.toList with
+  | .ok p =>
+    match escapePattern p with
+    | some cs => .ok s!"ok {showPatternC07 p} {hexChars cs}"
+    | none => .ok s!"ok {showPatternC07 p} ?"
+  | .error _ => .ok "err"
+
+/-- per code point in `[from, to)`: `0`-`3` = printable + 2·graphemeExtended; `x` = surrogate -/
+def opEscapeClassC07 : Handler := fun _ j => do
+  let a ← jNat (← field j "from")
+  let b ← jNat (← field j "to")
+  let cls (n : Nat) : Char :=
+    if 0xD800 ≤ n && n ≤ 0xDFFF then 'x' else
+    let c := Char.ofNat n
+    Char.ofNat (48 + (if isPrintable c then 1 else 0) + (if isGraphemeExtended c then 2 else 0))
+  .ok (String.ofList ((List.range (b - a)).map fun i => cls (a + i)))
+
+def c07Ops : List (String × Handler) := [
+  ("render", opRenderC07), ("parse-tokens", opParseTokensC07), ("escape", opEscapeC07), ("unquote", opUnquoteC07),
+  ("pattern", opPatternC07), ("escape-class", opEscapeClassC07)]
 
 end CedarGo.Driver
